@@ -619,11 +619,31 @@ func specStruct(e *vlib.Env, name string, cs []*x509.Certificate, ref time.Time)
 		return
 	}
 	a, c := cs[0], cs[1]
-	if a.KeyUsage&x509.KeyUsageDigitalSignature == 0 || a.KeyUsage&x509.KeyUsageCertSign != 0 {
-		bad("validated-as-usage", "first certificate lacks the AS key usage")
+	if a.KeyUsage&x509.KeyUsageDigitalSignature == 0 || a.KeyUsage&x509.KeyUsageCertSign != 0 ||
+		(a.BasicConstraintsValid && a.IsCA) {
+		bad("validated-as-usage", "first certificate lacks the AS key usage / is a CA")
 	}
-	if c.KeyUsage&x509.KeyUsageCertSign == 0 || !c.IsCA || !c.BasicConstraintsValid {
-		bad("validated-ca-usage", "second certificate is not a CA certificate")
+	ts := false
+	for _, u := range a.ExtKeyUsage {
+		ts = ts || u == x509.ExtKeyUsageTimeStamping
+	}
+	if !ts {
+		bad("validated-as-usage", "AS certificate without id-kp-timeStamping")
+	}
+	if c.KeyUsage&x509.KeyUsageCertSign == 0 || c.KeyUsage&x509.KeyUsageDigitalSignature != 0 ||
+		!c.IsCA || !c.BasicConstraintsValid || c.MaxPathLen != 0 {
+		bad("validated-ca-usage", "second certificate lacks the CA key usage / constraints")
+	}
+	for _, u := range c.ExtKeyUsage {
+		if u == x509.ExtKeyUsageClientAuth || u == x509.ExtKeyUsageServerAuth {
+			bad("validated-ca-usage", "CA certificate with id-kp-clientAuth/serverAuth")
+		}
+	}
+	if len(a.SubjectKeyId) == 0 || len(a.AuthorityKeyId) == 0 || len(c.SubjectKeyId) == 0 || len(c.AuthorityKeyId) == 0 {
+		bad("validated-keyid", "subject/authority key id missing")
+	}
+	if a.Version != 3 || c.Version != 3 {
+		bad("validated-version", "not X.509 v3")
 	}
 	if a.NotBefore.Before(c.NotBefore) || a.NotAfter.After(c.NotAfter) {
 		bad("validated-not-covered", "CA validity does not cover the AS validity")
@@ -860,6 +880,7 @@ func runProvider(e *vlib.Env, w *world, r *vlib.Rand, withChains bool) {
 		var op, ans, tag string
 		var handed [][]*x509.Certificate
 		var gerr error
+		var spec func()
 		if !withChains {
 			var trcs []cppki.SignedTRC
 			err := safeErr(func() error {
@@ -873,7 +894,7 @@ func runProvider(e *vlib.Env, w *world, r *vlib.Rand, withChains bool) {
 			}
 			tag = "act/" + strings.SplitN(ans, " ", 2)[0]
 			gerr = err
-			specActive(e, ps, trcs, err, failL || failP)
+			spec = func() { specActive(e, ps, trcs, err, failL || failP) }
 		} else {
 			fe := &fakeFetcher{err: nil}
 			for _, i := range feIdx {
@@ -975,7 +996,7 @@ func runProvider(e *vlib.Env, w *world, r *vlib.Rand, withChains bool) {
 				}
 			}
 			if !allowInactive && !wildcard {
-				specProvider(e, ps, handed, chainPool, okm, li, pi)
+				spec = func() { specProvider(e, ps, handed, chainPool, okm, li, pi) }
 			}
 		}
 		el := time.Since(t0)
@@ -984,6 +1005,9 @@ func runProvider(e *vlib.Env, w *world, r *vlib.Rand, withChains bool) {
 		}
 		_ = gerr
 		e.Op(op, ans, tag)
+		if spec != nil {
+			spec() // the statement is evaluated only on cases whose timing was within the margin
+		}
 		return
 	}
 	e.Case("provider-case-skipped-clock", "~skipped", true)
@@ -1064,7 +1088,7 @@ func specProvider(e *vlib.Env, ps []planTRC, handed [][]*x509.Certificate, pool 
 
 func main() {
 	e := vlib.Init()
-	r := vlib.NewRand(uint64(e.Seed))
+	r := pki2.Rand(e.Seed)
 	w := buildWorld()
 	e.Rule = "real P-256 keys and X.509 certificates generated in-process: every single deviation from the SCION " +
 		"AS/CA/root/voting profile (template level and parsed-field level), validity relations, wrong issuer/ISD/root, " +
